@@ -1042,6 +1042,35 @@ def x_operator_getitem(c):
     c.outs.extend(_apply_subscript(c, c.args[0], c.args[1]))
 
 
+_OPERATOR_COMPARE = {"contains": "In", "eq": "Eq", "ne": "NotEq", "lt": "Lt", "le": "LtE", "gt": "Gt", "ge": "GtE", "is_": "Is", "is_not": "IsNot"}
+
+
+@ext(*["operator." + k for k in _OPERATOR_COMPARE])
+def x_operator_compare(c):
+    """operator.contains(a, b) is `b in a`, operator.eq(a, b) is `a == b`, ...: decided by the
+    walker's own comparison rules"""
+    import ast as _ast
+
+    if len(c.args) != 2 or c.kwargs:
+        c.rz("TypeError", "%s() takes two arguments" % c.callee)
+        return
+    name = c.callee.rsplit(".", 1)[1]
+    l, r = (c.args[1], c.args[0]) if name == "contains" else (c.args[0], c.args[1])
+    node = _ast.Compare(left=_ast.Name(id="$opl", ctx=_ast.Load()), ops=[getattr(_ast, _OPERATOR_COMPARE[name])()], comparators=[_ast.Name(id="$opr", ctx=_ast.Load())])
+    for x in _ast.walk(node):
+        _ast.copy_location(x, c.e)
+    s = c.s.copy()
+    s.env = dict(s.env)
+    s.env["$opl"], s.env["$opr"] = l, r
+    for s2, k2, p2 in c.w.cond(node, s):
+        s2.env.pop("$opl", None)
+        s2.env.pop("$opr", None)
+        if k2 in ("true", "false"):
+            c.outs.append((s2, "val", C(k2 == "true")))
+        else:
+            c.outs.append((s2, k2, p2))
+
+
 @ext("operator.truth", "operator.not_")
 def x_operator_truth(c):
     if len(c.args) != 1:
